@@ -937,6 +937,17 @@ def replay(scn, history):
                 line['loaded'] = (w.loaded if ('exc' not in line or getattr(w, 'loaded_ok', False))
                                   else dict(alive=False, servers={}, apps={}, groups={}))
                 line['prestore'] = pre_store
+                # traits as DECLARED: by the manifests / allocation document for the
+                # instances, by the one registration a new master reads for the servers
+                try:
+                    da = w.decl_apps()
+                except Exception:   # pylint: disable=broad-except
+                    da = {}
+                line['decl_traits'] = dict(
+                    apps={a: d['traits'] for a, d in da.items() if 'traits' in d},
+                    servers={s: v[-1][3] for s, v in w.spells.items()
+                             if s in scn['server_init'] and v and len(v[-1]) >= 4
+                             and s not in w.untracked})
                 if 'exc' not in line and w.master is not None and w.init_placement is not None:
                     # the start-up cycle: pre = the model as loaded, post = after init_schedule
                     line['loaded_sched'] = w.loaded_sched
